@@ -618,6 +618,9 @@ type raceCase struct {
 	Prefix []step `json:"prefix"`
 	AB     []step `json:"ab"` // the two steps in the order A;B with expectations
 	BA     []step `json:"ba"` // the order B;A as far as the specification follows it (1 or 2 steps)
+	// TraceOnly: the two steps are not atomic in the code either (several critical sections); the outcome is
+	// not compared with the serializations, the controllers' events of the trial are judged by the node rules
+	TraceOnly bool `json:"traceonly"`
 }
 
 type obs struct {
@@ -655,6 +658,10 @@ func (r *runner) execFree(st *step) obs {
 		return obs{ok: err == nil, err: err}
 	case "Ack":
 		err := s.DeliverAck(st.F, st.L)
+		return obs{ok: err == nil, err: err}
+	case "Snapshot":
+		// the cursor's snapshot transfer is let go; whether the follower accepts it is part of the outcome
+		err := s.Release("snapshot", st.L, st.F, r.timeout+2*time.Second)
 		return obs{ok: err == nil, err: err}
 	}
 	return obs{err: fmt.Errorf("step %s not supported in a race", st.A)}
@@ -766,6 +773,10 @@ func raceOne(rc *raceCase, timeout time.Duration, jitter time.Duration, swap boo
 		case <-time.After(timeout + 10*time.Second):
 			return &mismatch{Step: -1, Action: a.A + "||" + b.A, Field: "race", What: "a concurrently issued step does not return"}, nil
 		}
+	}
+	if rc.TraceOnly {
+		time.Sleep(20 * time.Millisecond)
+		return nil, nil
 	}
 	// judge: one of the two serializations
 	var why []string
@@ -1227,6 +1238,9 @@ func raceMain(args []string) {
 		found := 0
 		for k := 0; k < *reps && found == 0; k++ {
 			jit := time.Duration(rng.Intn(400)) * time.Microsecond
+			if rc.TraceOnly {
+				jit = time.Duration(rng.Intn(4000)) * time.Microsecond // steps made of several critical sections
+			}
 			if k%4 == 0 {
 				jit = 0
 			}
